@@ -119,7 +119,7 @@ impl Prop for PXSem {
     fn corrupt(&self, obs: &Value) -> Option<Value> {
         let mut o = obs.clone();
         let mut out = json_to_bytes(&obs["stdout"]);
-        if out.len() > 1 {
+        if out.len() > 1 && obs["exit"].as_i64() == Some(0) {
             // what xargs echoed: one byte less
             out.remove(out.len() / 2);
             o["stdout"] = bytes_to_json(&out);
